@@ -1,7 +1,7 @@
 #!/venv/bin/python
 """Run the registered checks against the seeded changes under /verif/seeded/<id>/ (patch.diff, demo*.py, meta.json).
 
-usage: run_seeded.py [--tier quick|thorough] [--demo] [--all-checks [--jobs N]] [id ...]
+usage: run_seeded.py [--tier quick|thorough] [--seed N] [--demo] [--all-checks [--jobs N]] [id ...]
 (--all-checks: run EVERY registered check against each change, N at a time, and write the matrix seeded/MATRIX.md)
 For each seeded change: make sure /repo is clean, `git -C /repo apply patch.diff`, (optionally run the demonstration),
 run ./check <P> for every P in meta["checks"] (default: the property it breaks), record exit code and VIOLATION lines,
@@ -49,6 +49,9 @@ def main(argv):
         elif argv[i] == '--jobs':
             jobs = int(argv[i + 1])
             i += 2
+        elif argv[i] == '--seed':
+            os.environ['VERIF_SEED'] = argv[i + 1]      # the checks read it (default 0; `vp check` uses 1)
+            i += 2
         else:
             ids.append(argv[i])
             i += 1
@@ -67,7 +70,8 @@ def main(argv):
         rc, out = sh(['git', '-C', REPO, 'apply', '--3way', os.path.join(d, 'patch.diff')])
         if rc != 0:
             rc, out = sh(['git', '-C', REPO, 'apply', os.path.join(d, 'patch.diff')])
-        res = {'id': sid, 'property': meta['property'], 'tier': tier, 'applied': rc == 0, 'checks': {}}
+        res = {'id': sid, 'property': meta['property'], 'tier': tier, 'seed': int(os.environ.get('VERIF_SEED', '0')),
+               'applied': rc == 0, 'checks': {}}
         try:
             if rc != 0:
                 res['apply_error'] = out[-500:]
